@@ -27,6 +27,9 @@ GTRs == << <<"A/C", R(2,1)>>, <<"A/G", R(3,1)>>, <<"A/T", R(1,2)>>, <<"C/G", R(3
 GNp  == << <<"A>C", R(2,1)>>, <<"A>G", R(3,1)>>, <<"A>T", R(5,1)>>, <<"C>A", R(7,1)>>, <<"C>G", R(1,2)>>, <<"C>T", R(1,3)>>,
            <<"G>A", R(11,1)>>, <<"G>C", R(1,5)>>, <<"G>T", R(13,1)>>, <<"T>A", R(1,7)>>, <<"T>C", R(17,1)>> >>
 
+GNtied == << <<"A>C", R(1,1)>>, <<"A>G", R(1,1)>>, <<"A>T", R(1,1)>>, <<"C>A", R(1,1)>>, <<"C>G", R(2,1)>>, <<"C>T", R(1,1)>>,
+            <<"G>A", R(1,1)>>, <<"G>C", R(1,1)>>, <<"G>T", R(1,1)>>, <<"T>A", R(1,1)>>, <<"T>C", R(2,1)>> >>
+
 NucInstances == <<
     M("JC69",  1, "word", <<>>, Pi1(1,1,1,1), TRUE, TRUE, "eq"),
     M("K80",   1, "word", << <<"kappa", R(3,1)>> >>, Pi1(1,1,1,1), TRUE, TRUE, "k3"),
@@ -39,7 +42,10 @@ NucInstances == <<
     M("GN",    1, "none", GNp, Pi1(1,2,3,4), FALSE, FALSE, "primes"),
     \* user-built predicate models: overlapping predicates multiply; a directed predicate in a general model
     M("user:TimeReversibleNucleotide", 1, "word", << <<"u_or", R(3,1)>>, <<"u_not_ac", R(5,1)>> >>, Pi1(1,2,3,4), TRUE, TRUE, "algebra"),
-    M("user:NonReversibleNucleotide",  1, "none", << <<"u_fwd", R(3,1)>> >>, Pi1(1,2,3,4), FALSE, FALSE, "directed")
+    M("user:NonReversibleNucleotide",  1, "none", << <<"u_fwd", R(3,1)>> >>, Pi1(1,2,3,4), FALSE, FALSE, "directed"),
+    \* exact TIES between the terms of a general model (C>G = T>C = 2, all others 1): a legal, in-bounds point at which Q has a
+    \* repeated eigenvalue with too few eigenvectors (not diagonalisable): exponentiation by eigen-decomposition is meaningless there
+    M("GN",    1, "none", GNtied, Pi1(1,1,1,1), FALSE, FALSE, "tied-not-diagonalisable")
 >>
 
 CodonInstances == <<
